@@ -914,7 +914,8 @@ def _rr_mark(logfile, name, parent_pid, fail=False, marks=False):
     elif threading.current_thread() is not threading.main_thread():
         here = 'thread'
     if fail and here != 'serial':
-        time.sleep(0.25)        # let the tasks selected before it start first
+        fail = False            # `continue` is only read off a serial run; a failure in a parallel run would make which
+                                # of the other tasks still start a matter of timing
     fd = os.open(logfile, os.O_WRONLY | os.O_APPEND | os.O_CREAT)
     os.write(fd, ('%s %s\n' % (name, here)).encode())
     os.close(fd)
@@ -1003,6 +1004,8 @@ def impl_realrun(case, workdir):
     mode_seen = where['t']
     beh = {'single': 'd' not in ran, 'always': 'u' in ran, 'mode': mode_seen,
            'continue': ('z' in ran) if mode_seen == 'serial' else None,
-           'verbosity': None if mode_seen == 'process' else
+           # only a serial run shows it reliably: a process worker has its own streams, and with threads overlapping
+           # python-actions swap sys.stdout under each other (open finding of C17), output can escape the capture
+           'verbosity': None if mode_seen != 'serial' else
            (2 if 'OUTMARK' in out.getvalue() else 1 if 'ERRMARK' in text else 0)}
     return {'res': {'ok': {'behaviour': beh}}, 'exit': code, 'ran': ran}
